@@ -11,7 +11,7 @@ import (
 
 func init() {
 	register("C17", propMeta{
-		Explanation: "E-GUARD + E-PAIR + E-CHAN + E-PROV on common/turbotunnel. O-1 errors only after close: in RedialPacketConn.ReadFrom/WriteTo every return with a non-nil error is reachable only through a '<-closed' select case; closed is closed only in closeWithError, called only from Close and from the err != nil edge of dialContext. O-2 one carrier at a time, each closed: in dialLoop a carrier obtained on the err == nil edge reaches conn.Close() on every path before the next dial or a return; exchange is called synchronously. O-3 no goroutine outlives its carrier: in every goroutine literal of the package each blocking select has a case on the connection's closed channel, and each unconditional send goes to a channel made by the enclosing call whose constant capacity covers the sends the goroutine can perform before returning. O-4 copy-on-enqueue, never block: every send on a packet queue is inside a select with default and sends a slice made by this invocation, filled by copy from the caller's buffer, of the caller's length; no []byte parameter flows into a send, a struct field or a global; both ReadFrom methods return copy(p, queued). O-5 close-once and publication order: close(closed) only inside closeOnce.Do and after err.Store. O-6 closed means failed: ReadFrom/WriteTo/QueueIncoming test closed (polling) before touching a queue. O-7 expiry shape: removeExpired pops only while now.Sub(oldest.LastSeen) >= timeout with the unscaled timeout; Less orders by LastSeen.Before; the sweeper sleeps timeout/2 and passes the same timeout; SendQueue refreshes LastSeen before heap.Fix/heap.Push; Pop closes the removed queue. Each clause is necessary: e.g. an unbuffered error channel retains one goroutine and carrier per redial. Added after the second seeding round: O-7 also requires that Push/Pop/Swap of clientMapInner have no static caller outside the interface methods (container/heap only); named methods started with go count as goroutine bodies when that go statement is their only use. Added after the third seeding round: the writer goroutine of exchange signals its end on every return (close or send on writeErrCh); the sweeper reads the clock after its sleep; the expiry function is identified by shape if renamed. Added after the fourth seeding round: O-8/C05 the client-map index obligations (Swap, Push, Pop, SendQueue keep byAddr equal to the heap position; no stale index after heap.Fix); the queue of a removed record may be closed by Pop or by every caller of heap.Pop/heap.Remove.",
+		Explanation: "E-GUARD + E-PAIR + E-CHAN + E-PROV on common/turbotunnel. O-1 errors only after close: in RedialPacketConn.ReadFrom/WriteTo every return with a non-nil error is reachable only through a '<-closed' select case; closed is closed only in closeWithError, called only from Close and from the err != nil edge of dialContext. O-2 one carrier at a time, each closed: in dialLoop a carrier obtained on the err == nil edge reaches conn.Close() on every path before the next dial or a return; exchange is called synchronously. O-3 no goroutine outlives its carrier: in every goroutine literal of the package each blocking select has a case on the connection's closed channel, and each unconditional send goes to a channel made by the enclosing call whose constant capacity covers the sends the goroutine can perform before returning. O-4 copy-on-enqueue, never block: every send on a packet queue is inside a select with default and sends a slice made by this invocation, filled by copy from the caller's buffer, of the caller's length; no []byte parameter flows into a send, a struct field or a global; both ReadFrom methods return copy(p, queued). O-5 close-once and publication order: close(closed) only inside closeOnce.Do and after err.Store. O-6 closed means failed: ReadFrom/WriteTo/QueueIncoming test closed (polling) before touching a queue. O-7 expiry shape: removeExpired pops only while now.Sub(oldest.LastSeen) >= timeout with the unscaled timeout; Less orders by LastSeen.Before; the sweeper sleeps timeout/2 and passes the same timeout; SendQueue refreshes LastSeen before heap.Fix/heap.Push; Pop closes the removed queue. Each clause is necessary: e.g. an unbuffered error channel retains one goroutine and carrier per redial. Added after the second seeding round: O-7 also requires that Push/Pop/Swap of clientMapInner have no static caller outside the interface methods (container/heap only); named methods started with go count as goroutine bodies when that go statement is their only use. Added after the third seeding round: the writer goroutine of exchange signals its end on every return (close or send on writeErrCh); the sweeper reads the clock after its sleep; the expiry function is identified by shape if renamed. Added after the fourth seeding round: O-8/C05 the client-map index obligations (Swap, Push, Pop, SendQueue keep byAddr equal to the heap position; no stale index after heap.Fix); the queue of a removed record may be closed by Pop or by every caller of heap.Pop/heap.Remove. Added after the fifth seeding round: O-5b a channel that is both closed and sent on has one mutex held at the close and at every send (D23: the send queue of an expiring client); a deferred Close inside the redial loop does not count as closing the carrier before the next dial; the clock that stamps LastSeen is read with the map lock held.",
 		NotDecided:  "FIFO order of Go channels (language guarantee), actual timing of the sweeper, KCP behaviour above the adapters.",
 		Assumptions: []string{"conn.Close() unblocks a carrier's pending ReadFrom/WriteTo (net.PacketConn contract)", "Go channel semantics"},
 	}, runC17)
@@ -114,6 +114,10 @@ func runC17(c *Ctx) {
 				if _, isGo := ci.(*ssa.Go); isGo {
 					return false
 				}
+				// a deferred Close inside the redial loop runs when dialLoop returns, not before the next dial
+				if d, isDefer := ci.(*ssa.Defer); isDefer && inCycle(d.Block()) {
+					return false
+				}
 				return isResultOfCall(callArgs(ci)[0], dial, 0)
 			}
 			var path []*ssa.BasicBlock
@@ -161,6 +165,7 @@ func runC17(c *Ctx) {
 	c.prefix = "O-8/C05:"
 	c.checkClientMapIndex()
 	c.prefix = ""
+	c.checkNoSendRacesClose("O-5b no send races with a close", append(append([]*ssa.Function{}, tt...), p.FnsIn("server/lib")...))
 	c.checkCopyOnEnqueue(tt)
 
 	// ---------- O-7 expiry shape ----------
@@ -296,13 +301,7 @@ func (c *Ctx) checkGoroutineExits(tt []*ssa.Function) {
 					sendsPerPath := 1
 					if inCycle(op.Instr.Block()) {
 						// a send inside the loop: does every path from the send leave the loop (return) before sending again?
-						again := false
-						for _, s := range op.Instr.Block().Succs {
-							if reachPath(s, op.Instr.Block(), nil) != nil {
-								again = true
-							}
-						}
-						if again {
+						if canReenter(op.Instr.Block()) {
 							sendsPerPath = 1 << 30
 						}
 					}
@@ -351,7 +350,22 @@ func (c *Ctx) checkCopyOnEnqueue(tt []*ssa.Function) {
 				}
 			}
 			ms, _ := strip(payload).(*ssa.MakeSlice)
-			good := ms != nil && ms.Parent() == fn
+			owner := fn
+			if ms == nil {
+				// the payload is a parameter of an unexported helper with one call site (ClientMap.trySend): the
+				// slice handed over at that site
+				if par, isPar := strip(payload).(*ssa.Parameter); isPar {
+					if site := uniqueSite(fn); site != nil {
+						for i, fp := range fn.Params {
+							if fp == par && i < len(site.Common().Args) {
+								ms, _ = strip(site.Common().Args[i]).(*ssa.MakeSlice)
+								owner = site.Parent()
+							}
+						}
+					}
+				}
+			}
+			good := ms != nil && ms.Parent() == owner
 			why := "the enqueued packet is not a slice allocated by this invocation: it aliases the caller's buffer, which the caller (kcp-go's buffer pool, the carrier read loop) reuses"
 			if good {
 				// filled by copy
@@ -603,6 +617,34 @@ func (c *Ctx) checkExpiry() {
 		}
 		c.check(okSleep, rule, "sweeper sleeps timeout/2 between sweeps", p.Pos(nm.Pos()), "", "the sweep period is not half the timeout: idle queues are not discarded within one and a half timeouts")
 		c.check(okPass, rule, "sweeper passes the configured timeout to removeExpired", p.Pos(nm.Pos()), "", "removeExpired is given a value other than the configured timeout")
+	}
+	// the time a record is stamped with is read while the map is locked (a reading taken before waiting for the lock
+	// is as old as the wait: the record looks idle that long and is discarded early)
+	{
+		le := p.Locks()
+		n := 0
+		for _, fn := range p.FnsIn("common/turbotunnel") {
+			for _, ci := range callsIn(fn) {
+				if calleeName(ci) != "(*common/turbotunnel.clientMapInner).SendQueue" || fn.Signature.Recv() == nil || !strings.HasSuffix(fn.Signature.Recv().Type().String(), "ClientMap") {
+					continue
+				}
+				n++
+				now := ci.Common().Args[2]
+				good := false
+				flows(now, func(v ssa.Value) bool {
+					cc, _, ok := callResult1(strip(v))
+					if ok && calleeName(cc) == "time.Now" {
+						good = le.Held(cc, "ClientMap.lock") != heldNone
+						return true
+					}
+					return false
+				})
+				c.check(good, rule, p.FnName(fn)+" stamps LastSeen with a time read under the map lock", p.instrPos(ci), "", "the clock is read before ClientMap.lock is taken: under contention LastSeen is older than the moment the client was seen and its queue is discarded before a full timeout of idleness")
+			}
+		}
+		if n == 0 {
+			c.undecided(rule, "ClientMap methods that look a queue up", "-", "no call of clientMapInner.SendQueue from a ClientMap method")
+		}
 	}
 	// SendQueue refreshes LastSeen before Fix / Push
 	if sq := p.Fn("common/turbotunnel", "(*clientMapInner).SendQueue"); sq != nil && len(sq.Params) >= 3 {
